@@ -183,9 +183,9 @@ structure FetchResult where
   inst : Instance
   deriving Repr, Inhabited
 
-/-- GruleEngine.FetchMatchingRules: ResetAll but no knowledge.Reset() -/
+/-- GruleEngine.FetchMatchingRules: ResetAll and knowledge.Reset() -/
 def fetch (retErr : Bool) (order : Option (List String)) (c : Cfg) (inst : Instance) (st : Store) : FetchResult :=
-  let es0 : EState := resetAll { st := st, memoE := inst.memoE, memoA := inst.memoA, retracted := inst.retracted }
+  let es0 : EState := resetAll { st := st, memoE := inst.memoE, memoA := inst.memoA, retracted := [] }
   let (out, es, acc) := fetchPass retErr c (orderEntries order inst.entries) es0 []
   let inst' := { inst with memoE := es.memoE, memoA := es.memoA, retracted := es.retracted }
   match out with
